@@ -18,6 +18,7 @@ import (
 
 	v1 "sigs.k8s.io/karpenter/pkg/apis/v1"
 	"sigs.k8s.io/karpenter/pkg/controllers/disruption"
+	kevents "sigs.k8s.io/karpenter/pkg/events"
 	provsched "sigs.k8s.io/karpenter/pkg/controllers/provisioning/scheduling"
 	"sigs.k8s.io/karpenter/pkg/operator/options"
 	"sigs.k8s.io/karpenter/pkg/test"
@@ -159,18 +160,110 @@ type methodT interface {
 }
 
 func newMethod(w *world.World, name string) (methodT, *disruption.Queue, error) {
+	m, q, _, err := newMethodRec(w, name)
+	return m, q, err
+}
+
+// newMethodRec also hands out the event recorder the method publishes to (validation reports a rejected command there).
+func newMethodRec(w *world.World, name string) (methodT, *disruption.Queue, *test.EventRecorder, error) {
 	rec := test.NewEventRecorder()
 	queue := disruption.NewQueue(w.Client, rec, w.Cluster, w.Clock, w.Prov)
 	c := disruption.MakeConsolidation(w.Clock, w.Cluster, w.Client, w.Prov, w.CP, rec, queue)
 	switch name {
 	case "single":
-		return disruption.NewSingleNodeConsolidation(c), queue, nil
+		return disruption.NewSingleNodeConsolidation(c), queue, rec, nil
 	case "multi":
-		return disruption.NewMultiNodeConsolidation(c), queue, nil
+		return disruption.NewMultiNodeConsolidation(c), queue, rec, nil
 	case "empty":
-		return disruption.NewEmptiness(c), queue, nil
+		return disruption.NewEmptiness(c), queue, rec, nil
 	}
-	return nil, nil, fmt.Errorf("unknown method %q", name)
+	return nil, nil, nil, fmt.Errorf("unknown method %q", name)
+}
+
+// rejectedCommand reads the command validation rejected off the ConsolidationRejected events: its candidates (node
+// names, in the command's order) and the rejection class (budget | scheduling | churn | unknown).
+func rejectedCommand(rec *test.EventRecorder) ([]string, string) {
+	var names []string
+	class := ""
+	for _, e := range rec.Events() {
+		if e.Reason != kevents.ConsolidationRejected {
+			continue
+		}
+		nc, ok := e.InvolvedObject.(*v1.NodeClaim)
+		if !ok {
+			continue
+		}
+		names = append(names, strings.TrimPrefix(nc.Name, "nc-"))
+		if len(e.DedupeValues) >= 3 {
+			class = e.DedupeValues[2]
+		}
+	}
+	return names, class
+}
+
+func cmdOut(cmd disruption.Command) *CmdOut {
+	co := &CmdOut{Decision: string(cmd.Decision()), Cands: []CandOut{}, Repl: []ClaimO{}, Results: world.Extract(cmd.Results), NewClaims: len(cmd.Results.NewNodeClaims)}
+	for _, c := range cmd.Candidates {
+		l := c.Labels()
+		co.Cands = append(co.Cands, CandOut{Node: nodeNameOf(c), IT: l[corev1.LabelInstanceTypeStable], Zone: l[corev1.LabelTopologyZone], CT: l[v1.CapacityTypeLabelKey], Price: int64(c.Price * 1024)})
+	}
+	sort.Slice(co.Cands, func(i, j int) bool { return co.Cands[i].Node < co.Cands[j].Node })
+	for _, rp := range cmd.Replacements {
+		co.Repl = append(co.Repl, claimO(rp.NodeClaim))
+	}
+	return co
+}
+
+// precompute recomputes, on a fresh world built from the same input (before any churn), the command the method
+// handed to its validator for the given candidates (in that order): computeConsolidation and, for the multi-node
+// method, filterOutSameInstanceType — exactly the steps between candidate selection and Validate.  nil = no command.
+func precompute(in *RunIn, names []string) (*CmdOut, error) {
+	w, ctx, err := setup(in)
+	if err != nil {
+		return nil, err
+	}
+	rec := test.NewEventRecorder()
+	queue := disruption.NewQueue(w.Client, rec, w.Cluster, w.Clock, w.Prov)
+	c := disruption.MakeConsolidation(w.Clock, w.Cluster, w.Client, w.Prov, w.CP, rec, queue)
+	var m methodT
+	switch in.Method {
+	case "single":
+		m = disruption.NewSingleNodeConsolidation(c)
+	case "multi":
+		m = disruption.NewMultiNodeConsolidation(c)
+	default:
+		return nil, fmt.Errorf("precompute: method %q", in.Method)
+	}
+	cs, err := candidates(ctx, w, m, queue)
+	if err != nil {
+		return nil, err
+	}
+	by := map[string]*disruption.Candidate{}
+	for _, cn := range cs {
+		by[nodeNameOf(cn)] = cn
+	}
+	var sel []*disruption.Candidate
+	for _, n := range names {
+		if by[n] == nil {
+			return nil, nil
+		}
+		sel = append(sel, by[n])
+	}
+	if len(sel) == 0 {
+		return nil, nil
+	}
+	cmd, err := disruption.VerifComputeConsolidation(ctx, c, sel...)
+	if err != nil || cmd.Decision() == disruption.NoOpDecision {
+		return nil, nil
+	}
+	if in.Method == "multi" && cmd.Decision() == disruption.ReplaceDecision {
+		r, err := disruption.VerifFilterOutSameInstanceType(cmd.Replacements[0], sel)
+		if err != nil || len(r.InstanceTypeOptions) == 0 {
+			return nil, nil
+		}
+		cmd.Replacements[0] = r
+	}
+	return cmdOut(cmd), nil
 }
 
 func candidates(ctx context.Context, w *world.World, m methodT, q *disruption.Queue) ([]*disruption.Candidate, error) {
@@ -231,29 +324,28 @@ func budgetMap(in *RunIn) map[string]int {
 	return m
 }
 
-func implRun(raw json.RawMessage) (any, error) {
-	var in RunIn
-	if err := json.Unmarshal(raw, &in); err != nil {
-		return nil, err
-	}
-	w, ctx, err := setup(&in)
+// runOnce builds the world of the input and makes ONE real ComputeCommands call of the method, stepping the fake
+// clock through the validation delay whenever the method waits; with deliverChurn the input's churn is applied when
+// the method first waits (i.e. when a command has reached validation).  waited = a command reached validation.
+func runOnce(in *RunIn, deliverChurn bool) (out *RunOut, cmds []disruption.Command, rec *test.EventRecorder, waited bool, err error) {
+	w, ctx, err := setup(in)
 	if err != nil {
-		return nil, err
+		return nil, nil, nil, false, err
 	}
-	m, q, err := newMethod(w, in.Method)
+	m, q, rec, err := newMethodRec(w, in.Method)
 	if err != nil {
-		return nil, err
+		return nil, nil, nil, false, err
 	}
 	cs, err := candidates(ctx, w, m, q)
 	if err != nil {
-		return nil, err
+		return nil, nil, nil, false, err
 	}
 	// Balanced pools: hand the method the per-pool totals, as the controller does before ComputeCommands
 	for _, pe := range in.Pools {
 		if pe.Policy == string(v1.ConsolidationPolicyBalanced) {
 			_, totals, err := disruption.GetCandidatesWithTotals(ctx, w.Cluster, w.Client, test.NewEventRecorder(), w.Clock, w.CP, m.ShouldDisrupt, disruption.GracefulDisruptionClass, q, nil)
 			if err != nil {
-				return nil, err
+				return nil, nil, nil, false, err
 			}
 			if setter, ok := m.(disruption.NodePoolTotalsSetter); ok {
 				setter.SetNodePoolTotals(totals)
@@ -261,7 +353,7 @@ func implRun(raw json.RawMessage) (any, error) {
 			break
 		}
 	}
-	out := &RunOut{Eligible: []string{}, Passed: []string{}}
+	out = &RunOut{Eligible: []string{}, Passed: []string{}}
 	var passed []*disruption.Candidate
 	pick := map[string]bool{}
 	for _, p := range in.Pick {
@@ -287,7 +379,7 @@ func implRun(raw json.RawMessage) (any, error) {
 				done <- res{err: fmt.Errorf("panic: %v", r)}
 			}
 		}()
-		cmds, err := m.ComputeCommands(ctx, budgetMap(&in), passed...)
+		cmds, err := m.ComputeCommands(ctx, budgetMap(in), passed...)
 		done <- res{cmds, err}
 	}()
 	var r res
@@ -298,13 +390,14 @@ wait:
 		case r = <-done:
 			break wait
 		case <-deadline:
-			return nil, fmt.Errorf("ComputeCommands did not finish")
+			return nil, nil, nil, false, fmt.Errorf("ComputeCommands did not finish")
 		default:
 			if w.Clock.HasWaiters() {
-				if in.Churn != nil && !out.Churned {
+				waited = true
+				if deliverChurn && in.Churn != nil && !out.Churned {
 					out.Churned = true
 					if err := applyChurn(ctx, w, in.Churn); err != nil {
-						return nil, err
+						return nil, nil, nil, false, err
 					}
 				}
 				w.Clock.Step(16 * time.Second)
@@ -317,27 +410,76 @@ wait:
 			panic(r.err.Error())
 		}
 		out.Err = "error"
-		return out, nil
+		return out, nil, rec, waited, nil
 	}
 	if len(r.cmds) > 1 {
-		return nil, fmt.Errorf("%d commands from one ComputeCommands call", len(r.cmds))
+		return nil, nil, nil, false, fmt.Errorf("%d commands from one ComputeCommands call", len(r.cmds))
 	}
-	if len(r.cmds) == 1 {
-		cmd := r.cmds[0]
-		co := &CmdOut{Decision: string(cmd.Decision()), Cands: []CandOut{}, Repl: []ClaimO{}, Results: world.Extract(cmd.Results), NewClaims: len(cmd.Results.NewNodeClaims)}
+	return out, r.cmds, rec, waited, nil
+}
+
+func implRun(raw json.RawMessage) (any, error) {
+	var in RunIn
+	if err := json.Unmarshal(raw, &in); err != nil {
+		return nil, err
+	}
+	out, cmds, rec, _, err := runOnce(&in, true)
+	if err != nil {
+		return nil, err
+	}
+	if out.Err != "" {
+		return out, nil
+	}
+	if len(cmds) == 1 {
+		cmd := cmds[0]
+		co := cmdOut(cmd)
 		var names []string
 		for _, c := range cmd.Candidates {
-			l := c.Labels()
-			co.Cands = append(co.Cands, CandOut{Node: nodeNameOf(c), IT: l[corev1.LabelInstanceTypeStable], Zone: l[corev1.LabelTopologyZone], CT: l[v1.CapacityTypeLabelKey], Price: int64(c.Price * 1024)})
 			names = append(names, nodeNameOf(c))
-		}
-		sort.Slice(co.Cands, func(i, j int) bool { return co.Cands[i].Node < co.Cands[j].Node })
-		for _, rp := range cmd.Replacements {
-			co.Repl = append(co.Repl, claimO(rp.NodeClaim))
 		}
 		out.Cmd = co
 		if in.Method != "empty" {
 			sim, err := resim(&in, names, out.Churned)
+			if err != nil {
+				return nil, err
+			}
+			out.Sim = sim
+		}
+		if out.Churned {
+			out.Verdict = "released"
+		}
+	} else if out.Churned && in.Method != "empty" {
+		// a command reached validation (the method waited) and was not released: validation rejected it.  Recover
+		// which command it was, and re-simulate its candidates on the changed cluster — the inputs of the model's
+		// validateCommand.
+		//   single: the ConsolidationRejected events name the command's candidates and the rejection class; the command is
+		//           recomputed by computeConsolidation on an identical fresh world;
+		//   multi : the method publishes no such events (it overwrites the command with Validate's empty result before
+		//           emitting them), so the command is the one the same ComputeCommands call releases on an identical fresh
+		//           world WITHOUT the change (candidate order and binary search are deterministic); the class is unknown.
+		names, class := rejectedCommand(rec)
+		if len(names) > 0 {
+			out.Verdict = "rejected:" + class
+			pre, err := precompute(&in, names)
+			if err != nil {
+				return nil, err
+			}
+			out.Pre = pre
+		} else {
+			out.Verdict = "rejected:unobserved"
+			twin, tcmds, _, _, err := runOnce(&in, false)
+			if err != nil {
+				return nil, err
+			}
+			if twin.Err == "" && len(tcmds) == 1 {
+				out.Pre = cmdOut(tcmds[0])
+				for _, c := range tcmds[0].Candidates {
+					names = append(names, nodeNameOf(c))
+				}
+			}
+		}
+		if len(names) > 0 {
+			sim, err := resim(&in, names, true)
 			if err != nil {
 				return nil, err
 			}
